@@ -1,7 +1,8 @@
 //! C12: record text, events with spans, errors (position + the numbers in the printed form) and the
 //! spans of marked nodes in pre-order, for Trace_Pos.
 use crate::{out_file, read_pool, Args};
-use saphyr::{LoadableYamlNode, MarkedYaml, MarkedYamlOwned, YamlData, YamlDataOwned};
+use saphyr::{LoadableYamlNode, MarkedYaml, MarkedYamlOwned, YamlData, YamlDataOwned, YamlLoader};
+use saphyr_parser::Parser;
 use serde_json::{json, Value};
 use std::io::Write;
 use vh::*;
@@ -70,6 +71,41 @@ pub fn run(a: &Args) {
                     if a2 != *marked[0].as_array().unwrap() {
                         writeln!(w, "{}", rec(t, &rs, "str+MarkedYamlOwned", vec![json!(a2)])).unwrap();
                         nrec += 1;
+                    }
+                }
+                // the same through a hand-built loader with deferred scalar resolution, before and after resolving
+                let lazy = std::panic::catch_unwind(|| {
+                    let mut out: Vec<(&'static str, Vec<Value>)> = vec![];
+                    let mut l: YamlLoader<MarkedYaml> = YamlLoader::default();
+                    l.early_parse(false);
+                    if Parser::new_from_str(t).load(&mut l, true).is_ok() {
+                        let mut docs = l.into_documents();
+                        let mut v = vec![];
+                        docs.iter().for_each(|d| pre_m(d, &mut v));
+                        out.push(("str+MarkedYaml/deferred", v));
+                        docs.iter_mut().for_each(|d| {
+                            let _ = d.data.parse_representation_recursive();
+                        });
+                        let mut v = vec![];
+                        docs.iter().for_each(|d| pre_m(d, &mut v));
+                        out.push(("str+MarkedYaml/deferred+resolved", v));
+                    }
+                    let mut l: YamlLoader<MarkedYamlOwned> = YamlLoader::default();
+                    l.early_parse(false);
+                    if Parser::new_from_str(t).load(&mut l, true).is_ok() {
+                        let docs = l.into_documents();
+                        let mut v = vec![];
+                        docs.iter().for_each(|d| pre_mo(d, &mut v));
+                        out.push(("str+MarkedYamlOwned/deferred", v));
+                    }
+                    out
+                });
+                if let Ok(out) = lazy {
+                    for (name, v) in out {
+                        if v != *marked[0].as_array().unwrap() {
+                            writeln!(w, "{}", rec(t, &rs, name, vec![json!(v)])).unwrap();
+                            nrec += 1;
+                        }
                     }
                 }
             }
